@@ -6,6 +6,9 @@ use tokio::io::{self, AsyncRead, AsyncReadExt};
 use self::{bins::read_bins, metadata::read_metadata};
 use crate::binning_index::index::{ReferenceSequence, reference_sequence::index::BinnedIndex};
 
+// The count comes from the input: use it as a capacity hint only up to this bound.
+const MAX_PREALLOCATED_LEN: usize = 1 << 16;
+
 pub(super) async fn read_reference_sequences<R>(
     reader: &mut R,
     depth: u8,
@@ -17,7 +20,7 @@ where
         usize::try_from(n).map_err(|e| io::Error::new(io::ErrorKind::InvalidData, e))
     })?;
 
-    let mut reference_sequences = Vec::with_capacity(n_ref);
+    let mut reference_sequences = Vec::with_capacity(n_ref.min(MAX_PREALLOCATED_LEN));
 
     for _ in 0..n_ref {
         let reference_sequence = read_reference_sequence(reader, depth).await?;
